@@ -657,6 +657,7 @@ class Interp(Exec):
 
     def contains(self, st, cont, x):
         cont = self.force(st, cont)
+        x = self.force_key(st, x)
         if isinstance(x, VDyn):
             x = self.narrow(st, x)
         if isinstance(cont, VStr) and isinstance(x, VStr):
@@ -739,8 +740,15 @@ class Interp(Exec):
         obj = self.force(st, self.ev(node.value, st))
         if isinstance(node.slice, ast.Slice):
             return self.slice(st, obj, node.slice, node)
-        idx = self.force(st, self.ev(node.slice, st))
+        idx = self.force_key(st, self.ev(node.slice, st))
         return self.getitem(st, obj, idx, node)
+
+    def force_key(self, st, idx):
+        """A subscript key: lazily typed components of a tuple key (Optional / Union locals) are resolved too."""
+        idx = self.force(st, idx)
+        if isinstance(idx, VTuple) and any(isinstance(i, VLazy) for i in idx.items):
+            idx = VTuple([self.force(st, i) for i in idx.items])
+        return idx
 
     def getitem(self, st, obj, idx, node=None):
         if isinstance(obj, VDebug):
